@@ -246,21 +246,21 @@ Print Assumptions parse_fsig_print.
 
 (* decorator lines + overloads: the def groups printed for any list of functions with distinct names merge back
    into exactly the canonical functions *)
-Theorem merge_funcs_print : forall c fs,
-  (forall f, In f fs -> decos_ok c f = true /\ fn_sigs f <> []) -> NoDup (map fn_name fs) ->
-  merge_funcs (func_defs c fs) = Some (map (norm_func c) fs).
+Theorem merge_funcs_print : forall fixed c fs,
+  (forall f, In f fs -> decos_ok fixed c f = true /\ fn_sigs f <> []) -> NoDup (map fn_name fs) ->
+  merge_funcs (func_defs fixed c fs) = Some (map (norm_func fixed c) fs).
 Proof. exact DeclProofs.merge_funcs_print. Qed.
 Print Assumptions merge_funcs_print.
 
 (* a class of any size and nesting depth, read inside any suite *)
-Theorem parse_class_print : forall cl env scope nested ic X l, wf_cls env scope nested cl = true ->
+Theorem parse_class_print : forall fixed cl env scope nested ic X l, wf_cls fixed env scope nested cl = true ->
   suite_loop (parse_line env scope ic) (parse_class env scope) [] X = Some l ->
-  suite_loop (parse_line env scope ic) (parse_class env scope) [] (print_cls cl ++ X) = Some (DCls (norm_cls cl) :: l).
+  suite_loop (parse_line env scope ic) (parse_class env scope) [] (print_cls fixed cl ++ X) = Some (DCls (norm_cls fixed cl) :: l).
 Proof. exact class_reads_all. Qed.
 Print Assumptions parse_class_print.
 
 (* whole units: sections, blank lines, TypeVars in sorted order, aliases, constants, classes, functions *)
-Theorem parse_unit_print : forall u, wf_unit u = true -> parse_unit (print_unit u) = Some (norm_unit u).
+Theorem parse_unit_print : forall fixed u, wf_unit fixed u = true -> parse_unit (print_unit fixed u) = Some (norm_unit fixed u).
 Proof. exact parse_unit_print_lemma. Qed.
 Print Assumptions parse_unit_print.
 
@@ -271,32 +271,30 @@ Definition w_prop_sig (ret : ty) : fsig := mkF (mkSig [mkParam id_self AnyT Regu
 Definition w_unit_prop2 : unit_ :=
   mkU [mkTP 100 101 [] None] [] []
       [mkCls 110 [] [] [] None [] [] [mkFn 120 [w_prop_sig (TParam 100)] KProp false false false []]] [].
-Theorem unit_second_generation_refuted : exists u u',
-  wf_unit u = true /\ parse_unit (print_unit u) = Some u' /\ parse_unit (print_unit u') = None.
-Proof. exists w_unit_prop2, (norm_unit w_unit_prop2). vm_compute. repeat split; reflexivity. Qed.
-Print Assumptions unit_second_generation_refuted.
+Theorem unit_second_generation_before_fix_refuted : exists u u',
+  wf_unit false u = true /\ parse_unit (print_unit false u) = Some u' /\ parse_unit (print_unit false u') = None.
+Proof. exists w_unit_prop2, (norm_unit false w_unit_prop2). vm_compute. repeat split; reflexivity. Qed.
+Print Assumptions unit_second_generation_before_fix_refuted.
+(* with fixes/C05-property-decorator-printed-twice.patch the same unit is a fixed point from the first re-read on *)
+Example w_unit_prop2_fixed :
+  wf_unit true w_unit_prop2 = true /\ stable_unit true w_unit_prop2 = true /\
+  print_unit true (norm_unit true w_unit_prop2) = print_unit true w_unit_prop2 /\
+  parse_unit (print_unit true (norm_unit true w_unit_prop2)) = Some (norm_unit true w_unit_prop2).
+Proof. vm_compute. repeat split; reflexivity. Qed.
 
 (* (h) a property whose getter is not parametrised is re-read as a constant  x: Annotated[int, 'property'] *)
 Definition w_unit_propconst : unit_ :=
   mkU [] [] [] [mkCls 110 [] [] [] None [] [] [mkFn 120 [w_prop_sig (Named (NP id_int))] KProp false false false []]] [].
-Theorem unit_fixed_point_refuted : exists u u',
-  wf_unit u = true /\ parse_unit (print_unit u) = Some u' /\ print_unit u' <> print_unit u.
-Proof. exists w_unit_propconst, (norm_unit w_unit_propconst). vm_compute. repeat split; try reflexivity. discriminate. Qed.
+Theorem unit_fixed_point_refuted : forall fixed, exists u u',
+  wf_unit fixed u = true /\ parse_unit (print_unit fixed u) = Some u' /\ print_unit fixed u' <> print_unit fixed u.
+Proof. intros fixed. exists w_unit_propconst, (norm_unit fixed w_unit_propconst). destruct fixed; vm_compute; repeat split; try reflexivity; discriminate. Qed.
 Print Assumptions unit_fixed_point_refuted.
-
-(* (i) `def __init__(self) -> Any` is re-read with return type None (pytd_return_type) *)
-Definition w_unit_init : unit_ :=
-  mkU [] [] [] [mkCls 110 [] [] [] None [] [] [mkFn id_init [w_prop_sig AnyT] KMethod false false false []]] [].
-Theorem unit_fixed_point_refuted_init : exists u u',
-  wf_unit u = true /\ parse_unit (print_unit u) = Some u' /\ print_unit u' <> print_unit u.
-Proof. exists w_unit_init, (norm_unit w_unit_init). vm_compute. repeat split; try reflexivity. discriminate. Qed.
-Print Assumptions unit_fixed_point_refuted_init.
 
 (* (j) why wf_alias excludes a target printed as `None`: the alias  x = None  is re-read as the constant  x: None *)
 Definition w_unit_alias_none : unit_ := mkU [] [(130%N, Named (NB id_NoneType))] [] [] [].
-Theorem alias_none_refuted : exists u u',
-  parse_unit (print_unit u) = Some u' /\ u_aliases u <> [] /\ u_aliases u' = [] /\ print_unit u' <> print_unit u.
-Proof. exists w_unit_alias_none, (norm_unit w_unit_alias_none). vm_compute. repeat split; try reflexivity; discriminate. Qed.
+Theorem alias_none_refuted : forall fixed, exists u u',
+  parse_unit (print_unit fixed u) = Some u' /\ u_aliases u <> [] /\ u_aliases u' = [] /\ print_unit fixed u' <> print_unit fixed u.
+Proof. intros fixed. exists w_unit_alias_none, (norm_unit fixed w_unit_alias_none). destruct fixed; vm_compute; repeat split; try reflexivity; discriminate. Qed.
 Print Assumptions alias_none_refuted.
 
 (* one-line declarations are fixed points when their type is *)
@@ -325,11 +323,11 @@ Definition ex_unit : unit_ :=
              [mkFn 121 [ex_fsig; ex_fsig] KMethod true false false [];
               mkFn id_new [mkF (mkSig [mkParam id_cls AnyT Regular false None] None None AnyT) []] KStatic false false false []]]
       [mkFn 122 [mkF (mkSig [] None None (Named (NP id_int))) []] KMethod false false true [170%N]].
-Example ex_unit_wf : wf_unit ex_unit = true.
-Proof. vm_compute. reflexivity. Qed.
-Example ex_unit_roundtrip : parse_unit (print_unit ex_unit) = Some (norm_unit ex_unit) /\ norm_unit ex_unit <> ex_unit.
-Proof. vm_compute. split; [reflexivity|discriminate]. Qed.
-Example ex_unit_print : print_unit ex_unit =
+Example ex_unit_wf : forall fixed, wf_unit fixed ex_unit = true.
+Proof. intros []; vm_compute; reflexivity. Qed.
+Example ex_unit_roundtrip : forall fixed, parse_unit (print_unit fixed ex_unit) = Some (norm_unit fixed ex_unit) /\ norm_unit fixed ex_unit <> ex_unit.
+Proof. intros []; vm_compute; (split; [reflexivity|discriminate]). Qed.
+Example ex_unit_print : print_unit false ex_unit =
   [SLine [TName 100; TEq; TName id_TypeVar; TLPar; TStr 101; TComma; TName id_int; TComma; TName id_str; TRPar];
    SLine [TName 102; TEq; TName id_TypeVar; TLPar; TStr 103; TComma; TName id_bound; TEq; TName id_int; TRPar];
    SBlank;
